@@ -447,7 +447,7 @@ func (t *tree) parseCallParams() []ast.Node {
 			continue
 		case itemRightDelim:
 			key = firstIdent.val
-			value = t.itemList(itemParamEnd)
+			value = t.paramContent()
 			t.expect(itemRightDelim, "param")
 			params = append(params, &ast.CallParamContentNode{initial.pos, key, value})
 			continue
@@ -470,7 +470,7 @@ func (t *tree) parseCallParams() []ast.Node {
 		var valueStr string
 		if valueStr, ok = attrs["value"]; !ok {
 			t.expect(itemRightDelim, "param")
-			value = t.itemList(itemParamEnd)
+			value = t.paramContent()
 			t.expect(itemRightDelim, "param")
 			params = append(params, &ast.CallParamContentNode{initial.pos, key, value})
 		} else {
@@ -479,6 +479,16 @@ func (t *tree) parseCallParams() []ast.Node {
 			params = append(params, &ast.CallParamValueNode{initial.pos, key, value})
 		}
 	}
+}
+
+// paramContent parses the content of a {param} block. It is template content
+// in its own right, not part of a message the {call} may stand in: commands
+// that a message may not contain are fine here.
+func (t *tree) paramContent() *ast.ListNode {
+	var inmsg = t.inmsg
+	t.inmsg = false
+	defer func() { t.inmsg = inmsg }()
+	return t.itemList(itemParamEnd)
 }
 
 // "switch" has just been read.
